@@ -22,7 +22,7 @@ int bits_equal(const uint8_t *a, int64_t a_bit, const uint8_t *b, int64_t b_bit,
 
 /* ---------- programs ---------- */
 enum { OP_SOURCE = 1, OP_SIGNAL, OP_FSR, OP_OMIT, OP_ANNO, OP_UTC, OP_USER, OP_FLUSH };
-enum { PAT_RANDOM = 0, PAT_WALK, PAT_BLOCKCONST, PAT_RAMP, PAT_SMALL };
+enum { PAT_RANDOM = 0, PAT_WALK, PAT_BLOCKCONST, PAT_RAMP, PAT_SMALL, PAT_OFFSET /* large DC offset, small noise */ };
 
 typedef struct {
     struct jls_signal_def_s def;   /* as submitted; name/units point into the fields below */
